@@ -139,13 +139,23 @@ def hmac_shape(ctx, rep, rule):
         for name, ok in checks:
             rep.check(rule, key + "|" + name, ok, name, "HMAC step `%s` is fed %s" % (name, flow.fmt(args[checks.index((name, ok))])[:200]), body.loc(),
                       obligation=True)
-        # the two xor closures use IPAD_VALUE / OPAD_VALUE respectively, in this order
-        cl = sorted(facts.closures_of(body.path), key=lambda c: c.line)
+        # the two xor closures use IPAD_VALUE / OPAD_VALUE respectively, in this order (constant in the closure body, or
+        # captured by the closure when the xor lives in a shared helper)
         vals = []
-        for c in cl:
-            t = flow.Prov(c).local(0)
-            cs = [s[1] for s in flow.subterms(t) if s[0] == "const" and isinstance(s[1], int)]
-            vals.append(cs[0] if cs else None)
+        for a in (args[0], args[3]):
+            cl = [s_ for s_ in flow.subterms(a) if s_[0] == "agg" and s_[1] == "closure"]
+            v = None
+            for c in cl[:1]:
+                cap = [f[1][1] for f in c[3] if f[1][0] == "const" and isinstance(f[1][1], int)]
+                if cap:
+                    v = cap[0]
+                else:
+                    cb = facts.body(c[2])
+                    if cb is not None:
+                        t = flow.Prov(cb).local(0)
+                        cs = [s_[1] for s_ in flow.subterms(t) if s_[0] == "const" and isinstance(s_[1], int)]
+                        v = cs[0] if cs else None
+            vals.append(v)
         rep.check(rule, key + "|xor constants", vals == [0x36, 0x5C], "inner pad 0x36, outer pad 0x5c", "xor constants are %s" % vals, body.loc(), obligation=True)
     # MAC copy: data[offset..offset+SS] <- d2[0..SS]
     cp = [b for b in body.calls() if (callee_path(b.term) or "").endswith("copy_from_slice")]
@@ -376,6 +386,11 @@ def key_chain(ctx, rep, rule):
         rep.check(rule, fn, ok, "AuthKey::new(alg).%s(..) on the caller's material" % meth, "%s does not call %s on the caller's arguments" % (fn, meth), b.loc(), obligation=True)
 
 
+def pysym_text(node):
+    from .. import pysym
+    return pysym.text(node) if node is not None else "None"
+
+
 def key_ffi(ctx, rep, rule):
     """Python constants agree with the Rust tables; padding of aligned keys uses the privacy key's own type."""
     py = ctx.py
@@ -388,58 +403,90 @@ def key_ffi(ctx, rep, rule):
     kt = py.class_attrs("user", "KeyType")
     rep.check(rule, "user.KeyType", (kt.get("Password"), kt.get("Master"), kt.get("Localized")) == (0, 1, 2), "Password 0, Master 1, Localized 2",
               "KeyType values are %s" % kt, obligation=True)
-    f = py.func("user:KeyType._mask")
-    if f is None:
-        rep.missing(rule, "user.KeyType._mask")
-    else:
-        r = [ast.unparse(st.value) for st, cx in f.returns() if st.value is not None]
-        rep.check(rule, "user.KeyType._mask", r == ["self.value << 6"], "value << 6 (bits 7-6 of the algorithm code)", "_mask returns %s" % r, py.loc("user", f.node),
-                  obligation=True)
-    for fn, keyattr, algattr in (("get_auth_alg", "auth_key", "AUTH_ALG"), ("get_priv_alg", "priv_key", "PRIV_ALG")):
-        f = py.func("user:User." + fn)
-        if f is None:
-            rep.missing(rule, "user.User." + fn)
+    from . import py as pyr
+    ps = pyr.paths(ctx, rep, rule, "user", "KeyType", "_mask")
+    if ps:
+        r = sorted({pysym_text(p.ret) for p in ps if p.done == "return"})
+        rep.check(rule, "user.KeyType._mask", r == ["self.value << 6"], "value << 6 (bits 7-6 of the algorithm code)", "_mask returns %s" % r,
+                  py.loc("user", pyr.fn_node(ctx, "user", "KeyType", "_mask")), obligation=True)
+    for fn, keyattr, present, absent in (("get_auth_alg", "auth_key", "self.auth_key.AUTH_ALG | self.auth_key.key_type._mask", "0"),
+                                         ("get_priv_alg", "priv_key", "self.priv_key.PRIV_ALG | self.priv_key.key_type._mask", "0"),
+                                         ("get_auth_key", "auth_key", "self.auth_key.key", "b''"), ("get_priv_key", "priv_key", "self.priv_key.key", "b''")):
+        ps = pyr.paths(ctx, rep, rule, "user", "User", fn)
+        if not ps:
             continue
-        r = [ast.unparse(st.value) for st, cx in f.returns() if st.value is not None]
-        want = "self.%s.%s | self.%s.key_type._mask if self.%s else 0" % (keyattr, algattr, keyattr, keyattr)
-        rep.check(rule, "user.User." + fn, r == [want], want, "%s returns %s" % (fn, r), py.loc("user", f.node), obligation=True)
-    for fn, keyattr in (("get_auth_key", "auth_key"), ("get_priv_key", "priv_key")):
-        f = py.func("user:User." + fn)
-        if f is None:
-            rep.missing(rule, "user.User." + fn)
-            continue
-        r = [ast.unparse(st.value) for st, cx in f.returns() if st.value is not None]
-        rep.check(rule, "user.User." + fn, r == ["self.%s.key if self.%s else b''" % (keyattr, keyattr)], "the key's own material", "%s returns %s" % (fn, r),
-                  py.loc("user", f.node), obligation=True)
-    f = py.func("user:User.__init__")
-    if f is None:
-        rep.missing(rule, "user.User.__init__")
-    else:
-        pads = f.calls_to(lambda t: t == "self.priv_key._pad")
-        if not pads:
+        k = "self." + keyattr
+        bad = None
+        n1 = n0 = 0
+        for p in ps:
+            if p.done != "return":
+                continue
+            v = pysym_text(p.ret)
+            has = (k, True) in p.conds or ("eq(None,%s)" % k, False) in p.conds
+            hasnt = (k, False) in p.conds or ("eq(None,%s)" % k, True) in p.conds
+            if has:
+                n1 += 1
+                if v not in (present, " | ".join(reversed(present.split(" | ")))):
+                    bad = bad or "with a key %s returns %s" % (fn, v)
+            elif hasnt:
+                n0 += 1
+                if v != absent:
+                    bad = bad or "without a key %s returns %s" % (fn, v)
+            else:
+                bad = bad or "%s returns %s on a path that does not test %s" % (fn, v, k)
+        if not n1 or not n0:
+            bad = bad or "%s does not distinguish a configured key from none" % fn
+        rep.check(rule, "user.User." + fn, bad is None, "%s if %s else %s" % (present, k, absent), bad or "", py.loc("user", pyr.fn_node(ctx, "user", "User", fn)), obligation=True)
+    ps = pyr.paths(ctx, rep, rule, "user", "User", "__init__")
+    if ps:
+        n = 0
+        seen = set()
+
+        def un(t):   # self.priv_key holds the parameter priv_key in this constructor (store forwarded by the path unfolding)
+            return t.replace("self.", "")
+        for p in ps:
+            for i, e in pyr.calls(p, lambda f: un(f) == "priv_key._pad"):
+                n += 1
+                conds = {(un(t), v) for t, v in e.conds}
+                kk = (tuple(e.args), tuple(sorted(conds)))
+                if kk in seen:
+                    continue
+                seen.add(kk)
+                rep.check(rule, "user.User.__init__|pad-length", [un(a) for a in e.args] == ["auth_key.KEY_LENGTH"], "padded to the auth digest size", "padded to %s" % e.args,
+                          pyr.loc(ctx, "user", e), obligation=True)
+                rep.check(rule, "user.User.__init__|pad-when-priv-key-aligned", ("priv_key.key_type._is_aligned", True) in conds and
+                          (("priv_key", True) in conds or ("eq(None,priv_key)", False) in conds) and
+                          (("auth_key", True) in conds or ("eq(None,auth_key)", False) in conds),
+                          "only master / localized privacy keys are padded", "the privacy key is padded under %s: a password would be truncated or zero-padded" % (e.conds,),
+                          pyr.loc(ctx, "user", e), obligation=True)
+        if not n:
             rep.missing(rule, "user.User.__init__: self.priv_key._pad")
-        for c, cx, st in pads:
-            a = [ast.unparse(x) for x in c.args]
-            rep.check(rule, "user.User.__init__|pad-length", a == ["self.auth_key.KEY_LENGTH"], "padded to the auth digest size", "padded to %s" % a, py.loc("user", c),
-                      obligation=True)
-            rep.check(rule, "user.User.__init__|pad-when-priv-key-aligned", cx.has("self.priv_key.key_type._is_aligned", True) and cx.has("self.priv_key", True) and cx.has("self.auth_key", True),
-                      "only master / localized privacy keys are padded", "the privacy key is padded under %s: a password would be truncated or zero-padded" % (cx.conds,),
-                      py.loc("user", c), obligation=True)
-    f = py.func("user:BaseAuthKey.__init__")
-    if f is not None:
-        asg = [(st, cx) for st, cx in f.assigns_to("key")]
-        ok = any(ast.unparse(st.value) == "self._padded(key, self.KEY_LENGTH)" and cx.has("key_type._is_aligned", True) for st, cx in asg)
-        rep.check(rule, "user.BaseAuthKey.__init__|pad", ok, "aligned auth keys padded to KEY_LENGTH", "auth key padding changed", py.loc("user", f.node))
-    f = py.func("user:BaseKey._padded")
-    if f is not None:
-        r = sorted(ast.unparse(st.value) for st, cx in f.returns() if st.value is not None)
-        rep.check(rule, "user.BaseKey._padded", r == sorted(["key", "key[:key_len]", "key + b'\\x00' * (key_len - kl)"]), "truncate or zero-extend to key_len",
-                  "_padded returns %s" % r, py.loc("user", f.node), obligation=True)
-    f = py.func("user:KeyType._is_aligned")
-    if f is not None:
-        r = [ast.unparse(st.value) for st, cx in f.returns() if st.value is not None]
-        rep.check(rule, "user.KeyType._is_aligned", r == ["self.is_master or self.is_localized"], "master or localized", "_is_aligned returns %s" % r, py.loc("user", f.node),
-                  obligation=True)
+    ps = pyr.paths(ctx, rep, rule, "user", "BaseAuthKey", "__init__")
+    if ps:
+        pads = [e for p in ps for i, e in pyr.calls(p, lambda f: f in ("self._padded", "cls._padded")) if "@inlined" in (e.origin or ()) or not e.origin]
+        ok = bool(pads) and all(e.args == ["key", "self.KEY_LENGTH"] and ("key_type._is_aligned", True) in e.conds for e in pads)
+        rep.check(rule, "user.BaseAuthKey.__init__|pad", ok, "aligned auth keys padded to KEY_LENGTH", "auth key padding changed",
+                  py.loc("user", pyr.fn_node(ctx, "user", "BaseAuthKey", "__init__")))
+    ps = pyr.paths(ctx, rep, rule, "user", "BaseKey", "_padded")
+    if ps:
+        rows = sorted({(tuple(sorted(set(p.conds))), pysym_text(p.ret)) for p in ps if p.done == "return"})
+        want = sorted([((("eq(key_len,len(key))", True),), "key"), ((("eq(key_len,len(key))", False), ("key_len < len(key)", True)), "key[:key_len]"),
+                       ((("eq(key_len,len(key))", False), ("key_len < len(key)", False)), "key + b'\\x00' * (key_len - len(key))")])
+        rep.check(rule, "user.BaseKey._padded", rows == want or sorted(r[1] for r in rows) == sorted(w[1] for w in want), "truncate or zero-extend to key_len",
+                  "_padded returns %s" % rows, py.loc("user", pyr.fn_node(ctx, "user", "BaseKey", "_padded")), obligation=True)
+    ps = pyr.paths(ctx, rep, rule, "user", "KeyType", "_is_aligned")
+    if ps:
+        r = sorted({pysym_text(p.ret) for p in ps if p.done == "return"})
+        good = (["self.is_master or self.is_localized"], ["self.is_localized or self.is_master"], ["not self.is_password"],
+                ["self in (self.Master, self.Localized)"], ["self != self.Password"])
+        where = py.loc("user", pyr.fn_node(ctx, "user", "KeyType", "_is_aligned"))
+        if r in good:
+            rep.ok(rule, "user.KeyType._is_aligned", r[0], where, obligation=True)
+        elif all(x in ("self.is_master", "self.is_localized", "self.is_password", "True", "False", "self.is_password or self.is_master",
+                       "self.is_password or self.is_localized") for x in r):
+            rep.violation(rule, "user.KeyType._is_aligned", "_is_aligned returns %s: master and localized keys (and only they) are fixed-length" % r, where, obligation=True)
+        else:
+            rep.inconclusive(rule, "user.KeyType._is_aligned", "_is_aligned returns %s" % r, where)
 
 
 # ---------------------------------------------------------------------------- C11 / C14
